@@ -641,8 +641,8 @@ ASSUME Mode = "judge" =>
          /\ ndJsonSerialize(IOEnv.BASEOUT, [i \in 1..Cardinality(BaseBad) |-> Base[SetToSeq(BaseBad)[i]]])
 
 (***************************************************************************)
-(* Step "judge".  An observation: [pick, runs: <<[modes, findings]>>], the  *)
-(* findings as <<[file, line, col, id]>>.                                   *)
+(* Step "judge".  An observation: [pick, runs: <<[modes, run: [inline],     *)
+(* rc, findings]>>], the findings as <<[file, line, col, id]>>.             *)
 (***************************************************************************)
 Obs == IF Mode = "judge" THEN ndJsonDeserialize(IOEnv.OBS) ELSE <<>>
 
@@ -675,15 +675,23 @@ SurfacesAgree(c) == Cardinality({ObsKeys(c.runs[j]) : j \in 1..Len(c.runs)}) <= 
 (***************************************************************************)
 (* Classes of deviations (the identity of a known finding).  A class is an  *)
 (* alternative reading under which the observation would be right; it       *)
-(* names the deviation, it never excuses it.                                *)
+(* names the deviation, it never excuses it.  The smallest set of           *)
+(* alternatives that explains a wrong run names its class ("a+b" when two   *)
+(* are needed); a run that no set explains is "other:<forms>".              *)
 (*                                                                         *)
-(*  end-closes-latest-begin   a cppcheck-suppress-end closes the most       *)
-(*      recent open begin whatever its id (and takes its range), instead of *)
-(*      the begin of its own id                                             *)
-(*  same-id-file-line-dropped   a suppression is ignored when another one   *)
-(*      with the same id, file, line and symbol exists, although the two    *)
-(*      differ in kind (a block or a file-level comment whose comment       *)
-(*      stands on that line)                                                *)
+(*  1 end-closes-latest-begin   a cppcheck-suppress-end closes the most     *)
+(*      recent open begin (the begins of the last begin line) of the same   *)
+(*      symbol whatever its id, instead of the begin of its own id; with    *)
+(*      overlapping blocks of different ids the ranges are swapped, an end  *)
+(*      that finds no begin of its symbol there is dropped                  *)
+(*  2 same-id-file-line-dropped   a suppression is ignored when another one *)
+(*      with the same id, file, line and symbol was given before, although  *)
+(*      the two differ in kind: a block (its line = the line of its begin   *)
+(*      comment) or a file-level comment vs. id:file:line                   *)
+(*  3 double-star-inside-id-matches-nothing   an id pattern in which `**`   *)
+(*      is followed by further characters matches no id                     *)
+(*  error-id-with-?-refused   an id pattern containing `?` is rejected      *)
+(*      ("Invalid id") and nothing is analysed                              *)
 (***************************************************************************)
 \* alternative 1: pair every end with the latest begin before it that is still open, in file order (ss = the forms
 \* in the order in which their ids stand in a [list] comment)
